@@ -452,4 +452,10 @@ def siteAllowedIn (shape : String) (file : String) : Bool :=
 theorem panicSites_placed :
     Generated.panicSites.all (fun s => siteAllowedIn s.2.2.1 s.1) = true := by decide
 
+/-- Termination of the code itself: the only recursion in /repo/src is `dereference` calling itself
+    once, on the referent of a `Type::Reference` (a strictly smaller type), and there is no `loop` /
+    `while`; every other iteration is a `for` over a finite collection. -/
+theorem recursion_sites :
+    Generated.selfCalls = [("common/type.rs", "dereference")] ∧ Generated.openLoops = [] := by decide
+
 end Educe.Attr
